@@ -255,6 +255,24 @@ func (e *Explorer) position() string {
 	return ""
 }
 
+// panicLabel fingerprints a panic by the innermost function of the code under
+// test (metacontroller/..., not harness code) on the stack.
+func (e *Explorer) panicLabel() string {
+	for f := e.curFrame; f != nil; f = f.caller {
+		if f.fn.Pkg == nil {
+			if p := f.fn.Parent(); p == nil || p.Pkg == nil {
+				continue
+			}
+		}
+		name := f.fn.String()
+		if strings.Contains(name, "metacontroller/") && !strings.Contains(name, "zzverif") && !strings.Contains(name, ".Verif") && !strings.Contains(name, ".verif") {
+			name = strings.ReplaceAll(name, "metacontroller/pkg/", "")
+			return "no-panic/" + name
+		}
+	}
+	return "no-panic"
+}
+
 func (e *Explorer) stack() string {
 	var b strings.Builder
 	n := 0
@@ -572,7 +590,7 @@ func (e *Explorer) runPath(prefix []bool, wantWitness bool) (completed bool, wit
 					e.inconclusive("the harness thread blocks forever: " + p.why + " @ " + e.stack())
 				case targetPanic:
 					panicMsg = "panic: " + toString(p.v)
-					e.recordViolation("panic", "no-panic", panicMsg+" @ "+e.stack())
+					e.recordViolation("panic", e.panicLabel(), panicMsg+" @ "+e.stack())
 				case runtime.Error:
 					msg := p.Error()
 					if _, isTA := p.(*runtime.TypeAssertionError); isTA || !isTargetRuntimeError(msg) {
@@ -584,12 +602,12 @@ func (e *Explorer) runPath(prefix []bool, wantWitness bool) (completed bool, wit
 						}
 					} else {
 						panicMsg = "panic: runtime error: " + msg
-						e.recordViolation("panic", "no-panic", panicMsg+" @ "+e.stack())
+						e.recordViolation("panic", e.panicLabel(), panicMsg+" @ "+e.stack())
 					}
 				case string:
 					if strings.HasPrefix(p, "target:") {
 						panicMsg = "panic: " + p[7:]
-						e.recordViolation("panic", "no-panic", panicMsg+" @ "+e.stack())
+						e.recordViolation("panic", e.panicLabel(), panicMsg+" @ "+e.stack())
 					} else {
 						e.inconclusive("engine panic: " + p + " @ " + e.stack())
 					}
